@@ -78,6 +78,8 @@ type attPlan struct {
 	// BigWrites: writes are not capped at 60 000 bytes (a sender with a large socket buffer): with chunks of 64 KiB and more the
 	// server's 100 KiB read buffer is filled to the last byte by single reads
 	BigWrites bool `json:"big_writes,omitempty"`
+	// InfoType: the information-type byte of the 0x1210 (0x00 alarm files; 0x01 "re-upload" of files announced before)
+	InfoType byte `json:"info_type,omitempty"`
 }
 
 // files larger than this are "sparse" in the plans: announced with their full size, only a few chunks sent
@@ -122,7 +124,9 @@ func attBuild(p *attPlan) *attBuilt {
 	general := func(id, s uint16) *ref.Reply {
 		return &ref.Reply{ID: 0x8001, Body: []byte{byte(s >> 8), byte(s), byte(id >> 8), byte(id), 0}}
 	}
-	ctrl(0x1210, att.Body1210(d, core.UnHex(p.TermID), core.UnHex(p.AlarmID), b.files), -1)
+	b1210 := att.Body1210(d, core.UnHex(p.TermID), core.UnHex(p.AlarmID), b.files)
+	att.SetInfoType(b1210, b.files, p.InfoType)
+	ctrl(0x1210, b1210, -1)
 	b.expect = append(b.expect, general(0x1210, p.Serial0))
 	b.completeAt = make([]int, len(p.Files))
 	for i := range b.completeAt {
